@@ -118,6 +118,19 @@ Theorem c01_fair_quiescence : forall nres ncie mp source q0 a b c ls s0 (sigma :
 Proof. exact fair_quiescence. Qed.
 Print Assumptions c01_fair_quiescence.
 
+(** ... and the same from ANY reachable state, the source still producing: with the reader thread's
+    steps among those considered (pushes and the end of input; still no keystroke, no command change
+    in flight), every weakly fair execution sees the source end and then comes to rest as above. *)
+Theorem c01_fair_quiescence_any : forall nres ncie mp source q0 a b c ls s0 (sigma : nat -> st) (lam : nat -> option label),
+  run nres ncie mp (init source q0 a b c) ls = Some s0 -> no_cmd (map amop_of (pc s0)) = true ->
+  sigma 0 = s0 ->
+  exec st label (step nres ncie mp) inner2 sigma lam -> wfair st label (step nres ncie mp) inner2 sigma lam ->
+  exists t, quiescent (sigma t) /\ hbq (sigma t) = 0 /\ timer (sigma t) = false /\
+            (ncie = false -> Permutation (L (sigma t)) (complete nres mp (sigma t))) /\
+            (a || b || c = true -> decided (sigma t) <> None).
+Proof. exact fair_quiescence_any. Qed.
+Print Assumptions c01_fair_quiescence_any.
+
 (** the steps considered keep the region, never raise the rank, and the helpful one is enabled and
     lowers it (the premises of the rule, stated for the pipeline) *)
 Theorem c01_helpful_step_enabled : forall nres ncie mp s,
@@ -179,5 +192,20 @@ Proof.
   split; [apply finite_exec; vm_compute; reflexivity|].
   split; [|vm_compute; auto].
   eapply finite_fair; [vm_compute; reflexivity|].
+  intros l Hl. destruct l; cbn in Hl; try contradiction; try (vm_compute; reflexivity). inversion Hl.
+Qed.
+
+(** ... and from the very first state: the whole session of the example above, reader included *)
+Example c01_fair_example_any :
+  exists s1,
+    run 0 false ex_mp (init [1; 2; 3]%N 0%N true true false) (fq_pre ++ fq_post) = Some s1 /\
+    exec st label (step 0 false ex_mp) inner2 (state_at 0 false ex_mp (fq_pre ++ fq_post) (init [1; 2; 3]%N 0%N true true false)) (nth_error (fq_pre ++ fq_post)) /\
+    wfair st label (step 0 false ex_mp) inner2 (state_at 0 false ex_mp (fq_pre ++ fq_post) (init [1; 2; 3]%N 0%N true true false)) (nth_error (fq_pre ++ fq_post)) /\
+    at_rest s1 = true /\ L s1 = [(2%N, 1)].
+Proof.
+  eexists. split; [vm_compute; reflexivity|].
+  split; [apply finite_exec2; vm_compute; reflexivity|].
+  split; [|vm_compute; auto].
+  eapply finite_fair2; [vm_compute; reflexivity|].
   intros l Hl. destruct l; cbn in Hl; try contradiction; try (vm_compute; reflexivity). inversion Hl.
 Qed.
